@@ -1172,3 +1172,12 @@ mod test {
         server.reset();
     }
 }
+
+#[cfg(libtw2_verif)]
+impl Connection {
+    /// Verification hook: the complete protocol state (state machine, queues,
+    /// timers) in a canonical textual form.
+    pub fn verif_fingerprint(&self) -> String {
+        format!("{:?} send={:?}", self.state, self.send)
+    }
+}
